@@ -14,15 +14,15 @@ FLAGSETS = {
     "asan": dict(cxx="g++", flags="-std=c++17 -O1 -g -fno-omit-frame-pointer -fsanitize=address,undefined "
                  "-fno-sanitize-recover=all -fno-sanitize=nonnull-attribute",
                  env={"ASAN_OPTIONS": "abort_on_error=1:detect_leaks=1:allocator_may_return_null=0:detect_stack_use_after_return=0",
-                      "UBSAN_OPTIONS": "print_stacktrace=1:halt_on_error=1"}),
+                      "UBSAN_OPTIONS": "print_stacktrace=1:halt_on_error=1:abort_on_error=1"}),
     "asan_noleak": dict(cxx="g++", flags="-std=c++17 -O1 -g -fno-omit-frame-pointer -fsanitize=address,undefined "
                  "-fno-sanitize-recover=all -fno-sanitize=nonnull-attribute",
                  env={"ASAN_OPTIONS": "abort_on_error=1:detect_leaks=0:allocator_may_return_null=0",
-                      "UBSAN_OPTIONS": "print_stacktrace=1:halt_on_error=1"}),
+                      "UBSAN_OPTIONS": "print_stacktrace=1:halt_on_error=1:abort_on_error=1"}),
     "tsan": dict(cxx="g++", flags="-std=c++17 -O1 -g -fsanitize=thread", env={}),
     "plain": dict(cxx="g++", flags="-std=c++17 -O2 -g", env={}),
     "ubsan": dict(cxx="g++", flags="-std=c++17 -O1 -g -fsanitize=undefined -fno-sanitize-recover=all -fno-sanitize=nonnull-attribute",
-                  env={"UBSAN_OPTIONS": "print_stacktrace=1:halt_on_error=1"}),
+                  env={"UBSAN_OPTIONS": "print_stacktrace=1:halt_on_error=1:abort_on_error=1"}),
     "fuzz": dict(cxx="clang++", flags="-std=gnu++17 -O1 -g -fsanitize=fuzzer,address,undefined -fno-sanitize-recover=all "
                  "-fno-sanitize=nonnull-attribute,object-size", env={}),
 }
@@ -228,6 +228,10 @@ def run_worker(exe, args, flagset, seed, start, count, worker=0, nworkers=1, tim
                 cur = nxt
                 continue
         kind = "hang" if crash.get("t") == "hang" else (sig or "signal/%s" % crash.get("sig"))
+        desc = crash.get("desc", "") or ""
+        if desc.startswith("witness "):
+            # isolated witness of a known construct: the witness id is the stable part, the faulting file varies with stack depth
+            kind = "witness/%s/%s" % (desc.split()[1], "/".join(kind.split("/")[:2]))
         v = {"t": "violation", "case": crash.get("case"), "sig": "abnormal/" + kind,
              "detail": {"desc": crash.get("desc", ""), "rc": p.returncode, "stderr": err[-5000:]}, "driver_cmd": cmd}
         res.violations.append(v)
